@@ -71,25 +71,37 @@ type world struct {
 var marker = vaxis.Cell{Character: vaxis.Character{Grapheme: "·", Width: 1}}
 
 // build constructs the chain on the real API and returns the window, its absolute
-// origin and the clip rectangle computed from the windows' own fields.
+// origin and the clip rectangle computed from the requested geometry (reference clamp below).
 func (w *world) build(chain []winSpec) (vaxis.Window, int, int, rect, []*vaxis.Window) {
 	root := w.s.Vx.Window()
 	clip := rect{0, 0, scrW, scrH}
 	ox, oy := 0, 0
 	cur := root
+	// the size a child is entitled to is computed here, not read back from the window: New
+	// gives the requested size, or what is left of the parent from the offset when the request
+	// is negative or sticks out
+	pw, ph := scrW, scrH
 	var keep []*vaxis.Window
 	for _, ws := range chain {
 		parent := cur
 		keep = append(keep, &parent)
 		var nw vaxis.Window
+		cw, chh := ws.G.W, ws.G.H
 		if ws.Literal {
 			nw = vaxis.Window{Vx: w.s.Vx, Parent: &parent, Column: ws.G.Col, Row: ws.G.Row, Width: ws.G.W, Height: ws.G.H}
 		} else {
 			nw = parent.New(ws.G.Col, ws.G.Row, ws.G.W, ws.G.H)
+			if cw < 0 || ws.G.Col+cw > pw {
+				cw = pw - ws.G.Col
+			}
+			if chh < 0 || ws.G.Row+chh > ph {
+				chh = ph - ws.G.Row
+			}
 		}
-		ox += nw.Column
-		oy += nw.Row
-		clip = clip.inter(rect{ox, oy, ox + nw.Width, oy + nw.Height})
+		ox += ws.G.Col
+		oy += ws.G.Row
+		clip = clip.inter(rect{ox, oy, ox + cw, oy + chh})
+		pw, ph = cw, chh
 		cur = nw
 	}
 	return cur, ox, oy, clip, keep
